@@ -110,7 +110,7 @@ func runC29(r *simkit.Run) {
 	}
 	var script []adminOp
 	cur := cfg0.clone()
-	nAdmin := tp.Range(1, 5)
+	nAdmin := tp.Range(1, 6)
 	for i := 0; i < nAdmin; i++ {
 		n := all[tp.Choose(len(all))]
 		if _, ok := cur[n]; ok && tp.Chance(1, 3) {
@@ -119,6 +119,11 @@ func runC29(r *simkit.Run) {
 			continue
 		}
 		creds := c29draw(tp, cur, n)
+		if tp.Chance(1, 5) {
+			// a prepare whose commit never arrives (the control plane commits only when every proxy prepared): no effect
+			script = append(script, adminOp{kind: "abandoned-prepare", ns: n, creds: creds, after: cur.clone()})
+			continue
+		}
 		kind := "reload"
 		if _, ok := cur[n]; !ok {
 			kind = "create"
@@ -193,6 +198,12 @@ func runC29(r *simkit.Run) {
 		for _, op := range script {
 			simkit.Pause(r, "idle:admin")
 			switch op.kind {
+			case "abandoned-prepare":
+				if err := w.Manager.ReloadNamespacePrepare(c29ns(op.ns, op.creds)); err != nil {
+					r.Failf("harness", "prepare %s: %v", op.ns, err)
+					return
+				}
+				r.Fault("prepare-abandoned")
 			case "delete":
 				// the switch happens inside the call: from here either configuration may answer
 				versions = append(versions, op.after)
